@@ -742,7 +742,7 @@ def run_struct_tie(ctx, gt, only=None):
                 okrb = kv["upd"] == "1" and kv["ok2"] == "1" and strip_ro_comments(text.decode("latin-1")) == strip_ro_comments(text2.decode("latin-1"))
                 if not okrb:
                     why = "UpdateFromText returned false" if kv["upd"] != "1" else "restored view not Ok" if kv["ok2"] != "1" else "a field read back different"
-                    ctx.violation(_rb_key(mt, gt), "C++ round trip failed (%s) for struct %s, options %s" % (why, mt["top"], o),
+                    ctx.violation(_rb_key(mt, gt, why), "C++ round trip failed (%s) for struct %s, options %s" % (why, mt["top"], o),
                                   dict(replay, cpp_text=text.decode("latin-1"), cpp_text_after=text2.decode("latin-1"), why=why), found_input=True)
                 mt["rb_ok"] = okrb
             # -- Skip / Emit / order on the real text (independent of the model)
@@ -843,9 +843,10 @@ def _has_long_array(n):
     return False
 
 
-def _rb_key(mt, gt):
-    """Names the mechanism when it is recognisable: multi-line arrays are written without separators."""
-    if mt["opts"]["multiline"] and _has_long_array(mt["tree"]) and mt.get("single_line_ok", True):
+def _rb_key(mt, gt, why=""):
+    """Names the mechanism when it is recognisable: multi-line arrays are written without separators
+    (the reader then returns false at the second element)."""
+    if mt["opts"]["multiline"] and _has_long_array(mt["tree"]) and why == "UpdateFromText returned false":
         return "text-array-multiline-not-rereadable"
     return "text-roundtrip"
 
